@@ -327,6 +327,23 @@ def find_loops(lines):
                 continue
         # find body '{' at paren depth 0
         k = mm.end()
+        if kw == 'for':
+            # the pattern may contain braces (`for S { a, b } in xs {`): start after the ` in ` keyword
+            bd = 0
+            j = k
+            while j < len(txt):
+                if mask[j]:
+                    if txt[j] in '({[':
+                        bd += 1
+                    elif txt[j] in ')}]':
+                        bd -= 1
+                    elif bd == 0 and txt.startswith(' in ', j) or (bd == 0 and txt.startswith('\nin ', j)):
+                        k = j + 4
+                        break
+                    elif bd == 0 and re.match(r'\s+in\s', txt[j:j + 6]):
+                        k = j + re.match(r'\s+in\s', txt[j:j + 6]).end()
+                        break
+                j += 1
         pd = 0
         ok = False
         while k < len(txt):
@@ -559,7 +576,12 @@ def check_signature(real_sig, header_text, rules, where):
     hs = norm_ws(hs)
     hs = re.sub(r'^(pub\s+)?', '', hs)
     # named return
-    hs = re.sub(r'->\s*\(\s*\w+\s*:\s*(.*)\)\s*$', r'-> \1', hs)
+    mw = re.search(r'\)\s+where\b', hs)
+    where_part = ''
+    if mw and '->' in hs[:mw.start() + 1]:
+        where_part = ' ' + hs[mw.start() + 1:].strip()
+        hs = hs[:mw.start() + 1]
+    hs = re.sub(r'->\s*\(\s*\w+\s*:\s*(.*)\)\s*$', r'-> \1', hs) + where_part
     for r in rules:
         if r.get('rule') == 'rewrite':
             real = real.replace(r['from'], r['to'])
